@@ -164,7 +164,7 @@ fn gen_impl_delegation_trait_defs(
 
                 if let Some(first_arg) = trait_fn.entrait_sig.sig.inputs.first_mut() {
                     if let syn::FnArg::Receiver(receiver) = first_arg {
-                        *first_arg = if let Some((and, lifetime)) = receiver.reference.clone() {
+                        *first_arg = if let Some((and, lifetime)) = receiver_reference(receiver) {
                             syn::parse_quote! {
                                 __impl: #and #lifetime ::#entrait::Impl<EntraitT>
                             }
@@ -214,10 +214,9 @@ fn gen_impl_delegation_trait_defs(
             );
             for trait_fn in trait_copy.fns.iter_mut() {
                 let lifetime = match trait_fn.sig().inputs.first() {
-                    Some(syn::FnArg::Receiver(receiver)) => receiver
-                        .reference
-                        .as_ref()
-                        .and_then(|(_, lifetime)| lifetime.clone()),
+                    Some(syn::FnArg::Receiver(receiver)) => {
+                        receiver_reference(receiver).and_then(|(_, lifetime)| lifetime)
+                    }
                     _ => continue,
                 };
 
@@ -264,6 +263,24 @@ fn gen_impl_delegation_trait_defs(
             proc_macro2::Span::call_site(),
             "Missing delegate_by",
         )),
+    }
+}
+
+/// The `&` and lifetime of a receiver, also when it is spelled `self: &Self` / `self: &'a Self`
+/// (syn fills in `Receiver::reference` for the `&self` shorthand only)
+fn receiver_reference(receiver: &syn::Receiver) -> Option<(syn::token::And, Option<syn::Lifetime>)> {
+    if let Some(reference) = &receiver.reference {
+        return Some(reference.clone());
+    }
+    match receiver.ty.as_ref() {
+        syn::Type::Reference(type_reference)
+            if receiver.colon_token.is_some()
+                && type_reference.mutability.is_none()
+                && matches!(type_reference.elem.as_ref(), syn::Type::Path(ty) if ty.path.is_ident("Self")) =>
+        {
+            Some((type_reference.and_token, type_reference.lifetime.clone()))
+        }
+        _ => None,
     }
 }
 
